@@ -86,6 +86,8 @@ class C11(Engine):
                         uniq[0] += 1
                         overlay[ok] = MASK if rng.random() < 0.35 else self._val(ok, tid, uniq[0])
                 ops.append({"op": "swap", "vals": vals, "overlay": overlay, "how": rng.choice(("pos", "kw", "mixed", "mixed", "samekey", "badentry")), "exit": rng.choice(("normal", "normal", "raise", "raise", "baseexc")), "body": self.gen_ops(rng, tid, depth + 1, budget, uniq)})
+            elif r < 0.37 and depth > 0:
+                ops.append({"op": "delswapped"})  # `del $X` inside the block that swapped X
             elif r < 0.40 and depth > 0:
                 # the alias body writes into / deletes from the overlay dict it was handed
                 uniq[0] += 1
@@ -181,9 +183,15 @@ class C11(Engine):
             # documented layering: alias overlays (most recent first) shadow swapped values (innermost
             # first), which shadow the shared values
             for want_overlay in (True, False):
+                deleted = False
                 for layer in reversed(state["stack"]):
                     if bool(layer.get("__overlay__")) == want_overlay and key in layer:
+                        if layer[key] == "__DELETED_LOCAL__":
+                            deleted = True  # the thread-local entry was deleted inside the block: what is below the swaps shows
+                            break
                         return ABSENT if layer[key] == MASK else layer[key]
+                if deleted:
+                    break
             if key in state["persist"]:
                 return state["persist"][key]
             if key in G:
@@ -283,6 +291,25 @@ class C11(Engine):
                 elif kind == "probe_all":
                     for key in KEYS + (f"P{state['tid']}",):
                         probe(state, key, w)
+                elif kind == "delswapped":
+                    # only the innermost scope's own keys, and only where no overlay shadows the name
+                    inner = next((l_ for l_ in reversed(state["stack"]) if not l_.get("__overlay__")), None)
+                    if inner is None or inner is not state["stack"][-1] and not state["stack"][-1].get("__overlay__"):
+                        continue
+                    cands_ = [k2 for k2 in inner if k2 != "__overlay__" and inner[k2] != "__DELETED_LOCAL__" and not any(l_.get("__overlay__") and k2 in l_ for l_ in state["stack"])]
+                    if not cands_:
+                        continue
+                    k2 = sorted(cands_)[0]
+                    try:
+                        del env[k2]
+                    except KeyError:
+                        pass  # (a masked, globally unset, unregistered name: nothing to delete)
+                    except Exception as e:  # noqa: BLE001
+                        viol("view.in_scope", f"thread {state['tid']} {w}: del ${k2} inside the block that swapped it raised {type(e).__name__}: {e}", path="exception", others=False)
+                        continue
+                    inner[k2] = "__DELETED_LOCAL__"
+                    probes["deleted_inside_block"] = probes.get("deleted_inside_block", 0) + 1
+                    probe(state, k2, w)
                 elif kind == "ovset":
                     if state.get("ovs"):
                         rd, ml = state["ovs"][-1]
@@ -398,6 +425,8 @@ class C11(Engine):
                 for layer, is_overlay in self._layers(pstate):
                     if key in layer and not is_overlay:
                         flat[key] = layer[key]
+                if flat.get(key) == "__DELETED_LOCAL__":
+                    del flat[key]  # deleted inside the block: there is no thread-local value to inherit
             cstate = {"tid": t, "stack": [flat] if flat else [], "persist": {}, "n": t}
 
             def body():
